@@ -506,3 +506,150 @@ func calleeOfExpr(info *types.Info, e ast.Expr) *types.Func {
 	f, _ := typeutil.Callee(info, call).(*types.Func)
 	return f
 }
+
+// rulePassAll: an iterator layer hands on every item it obtains — no path from obtaining an item
+// (a call of the package's read method, or the head of a range-over-func loop) back to obtaining the
+// next one without a callback call in between.
+func rulePassAll(c *Ctx, r *Report, y *ydFunc, rule string) int {
+	info := y.f.pkg.TypesInfo
+	n := 0
+	isYield := func(nd ast.Node) bool {
+		has := false
+		inspectNoLit(nd, func(m ast.Node) bool {
+			if call, ok := m.(*ast.CallExpr); ok {
+				if id, ok := ast.Unparen(call.Fun).(*ast.Ident); ok && info.Uses[id] == y.cb {
+					has = true
+				}
+			}
+			return true
+		})
+		return has
+	}
+	// (1) explicit loops around a read() call
+	var readBlocks, yieldBlocks []*cfg.Block
+	for _, b := range y.g.Blocks {
+		for _, nd := range b.Nodes {
+			if isYield(nd) {
+				yieldBlocks = append(yieldBlocks, b)
+			}
+			inspectNoLit(nd, func(m ast.Node) bool {
+				if call, ok := m.(*ast.CallExpr); ok {
+					if fo := calleeOfExpr(info, call); fo != nil && fo.Pkg() == y.f.pkg.Types && fo.Name() == "read" {
+						readBlocks = append(readBlocks, b)
+					}
+				}
+				return true
+			})
+		}
+	}
+	for _, rb := range readBlocks {
+		n++
+		av := map[*cfg.Block]bool{}
+		for _, yb := range yieldBlocks {
+			av[yb] = true
+		}
+		seen := map[*cfg.Block]bool{}
+		loops := false
+		var dfs func(b *cfg.Block)
+		dfs = func(b *cfg.Block) {
+			if seen[b] || av[b] {
+				return
+			}
+			seen[b] = true
+			for _, s := range b.Succs {
+				if s == rb {
+					loops = true
+				}
+				dfs(s)
+			}
+		}
+		for _, s := range rb.Succs {
+			if s == rb {
+				loops = true
+			}
+			dfs(s)
+		}
+		pos := ""
+		if len(rb.Nodes) > 0 {
+			pos = c.pos(rb.Nodes[0].Pos())
+		}
+		r.check(!loops, rule, y.f.name, "every record read is yielded", pos,
+			"no path leads from one read() to the next without a callback call: every decoded record (or its error) reaches the consumer",
+			"a path leads from one read() to the next without a callback call: some decoded records are silently dropped")
+	}
+	// (2) range-over-func loops: each iteration yields exactly the range variables
+	for _, rs := range rangeFuncLoops(y.f) {
+		n++
+		kObj, vObj := identObj(info, rs.Key), identObj(info, rs.Value)
+		nY, okArgs := 0, true
+		ast.Inspect(rs.Body, func(nd ast.Node) bool {
+			call, ok := nd.(*ast.CallExpr)
+			if !ok {
+				return true
+			}
+			if id, ok := ast.Unparen(call.Fun).(*ast.Ident); !ok || info.Uses[id] != y.cb {
+				return true
+			}
+			nY++
+			want := []types.Object{kObj, vObj}
+			if rs.Value == nil {
+				want = want[:1]
+			}
+			if len(call.Args) != len(want) {
+				okArgs = false
+				return true
+			}
+			for i, a := range call.Args {
+				if identObj(info, a) != want[i] || want[i] == nil {
+					okArgs = false
+				}
+			}
+			return true
+		})
+		bodyG := cfg.New(rs.Body, mayReturn(info))
+		var yb []*cfg.Block
+		for _, b := range bodyG.Blocks {
+			for _, nd := range b.Nodes {
+				if isYield(nd) {
+					yb = append(yb, b)
+				}
+			}
+		}
+		skip := len(bodyG.Blocks) > 0 && cfgReachExitAvoiding(bodyG.Blocks[0], yb)
+		r.check(nY >= 1 && okArgs && !skip, rule, y.f.name, "range loop passes items through", c.pos(rs.Pos()),
+			"every iteration hands exactly the inner iterator's values to the consumer",
+			fmt.Sprintf("the pass-through loop alters or drops items (yield calls: %d, arguments are the range variables: %v, an iteration can skip the yield: %v)", nY, okArgs, skip))
+	}
+	return n
+}
+
+func rangeFuncLoops(f *astFunc) []*ast.RangeStmt {
+	var out []*ast.RangeStmt
+	info := f.pkg.TypesInfo
+	inspectNoLit(f.body, func(n ast.Node) bool {
+		if rs, ok := n.(*ast.RangeStmt); ok {
+			if _, ok := info.TypeOf(rs.X).Underlying().(*types.Signature); ok {
+				out = append(out, rs)
+			}
+		}
+		return true
+	})
+	return out
+}
+
+// rulesPassAllFor applies PASS-ALL to the iterator literals of one package (iter, Reader).
+func rulesPassAllFor(c *Ctx, r *Report, rel string, names []string, floor int) {
+	n := 0
+	for _, y := range allYD(c.Pkgs) {
+		if relPkg(y.f.pkg.PkgPath) != rel {
+			continue
+		}
+		for _, nm := range names {
+			if y.f.name == rel+"."+nm {
+				r.analysed(y.f.name)
+				n += rulePassAll(c, r, y, "PASS-ALL")
+			}
+		}
+	}
+	r.floor("PASS-ALL", n, floor, "iterator layers between read() and the consumer in "+rel)
+}
